@@ -500,8 +500,8 @@ class _GhostCoords(dict):
     pass
 
 
-def _mk_src(m, g, layout, attrs):
-    coords = _wrap(m, g)
+def _mk_src(m, g, layout, attrs, crs_name="spatial_ref"):
+    coords = _wrap(m, g, crs_name)
     ny, nx = g.shape.y, g.shape.x
     dims = {"yx": ("y", "x"), "tyx": ("time", "y", "x"), "yxb": ("y", "x", "band")}[layout]
     shape = {"yx": (ny, nx), "tyx": (2, ny, nx), "yxb": (ny, nx, 3)}[layout]
@@ -511,11 +511,11 @@ def _mk_src(m, g, layout, attrs):
         coords["band"] = GhostDA("band-names", None, ("band",), "band", {})
     coords["y_aux"] = GhostDA("aux-along-y", None, ("y",), "y_aux", {})  # a non-index coordinate riding on a spatial dimension
     src = _GhostDAx(None, coords, dims, "a", attrs, shape=shape)
-    src.encoding["grid_mapping"] = "spatial_ref"
+    src.encoding["grid_mapping"] = crs_name
     return src
 
 
-def _lemma_reproject_assembly(sny, snx, srx, sry, stx, sty, dny, dnx, drx, dry, dtx, dty, layout, src_nodata, dst_nodata, stale, same_crs):
+def _lemma_reproject_assembly(sny, snx, srx, sry, stx, sty, dny, dnx, drx, dry, dtx, dty, layout, src_nodata, dst_nodata, stale, same_crs, crs_name="spatial_ref"):
     aff = repo("affine").Affine
     g = _geobox((sny, snx), aff(srx, 0, stx, 0, sry, sty), "EPSG:32633")
     dst = _geobox((dny, dnx), aff(drx, 0, dtx, 0, dry, dty), "EPSG:32633" if same_crs else "EPSG:4326")
@@ -538,8 +538,9 @@ def _lemma_reproject_assembly(sny, snx, srx, sry, stx, sty, dny, dnx, drx, dry, 
                 return ("warped", dst_)
 
             m.rio_reproject = warp
-            src = _mk_src(m, g, layout, attrs)
+            src = _mk_src(m, g, layout, attrs, crs_name)
             out = m._xr_reproject_da(src, dst, resampling="bilinear", dst_nodata=dst_nodata)
+            log.append(("crs-coords", [k for k, c_ in out.coords.items() if m._is_spatial_ref(c_)]))
             st = m._locate_geo_info(out)
             return src, out, st
         finally:
@@ -572,6 +573,7 @@ def _lemma_reproject_assembly(sny, snx, srx, sry, stx, sty, dny, dnx, drx, dry, 
     claim("y_aux" not in out.coords and all(out.coords[k] is not src.coords[k] for k in ("y", "x") if k in out.coords) and (same_crs or ("y" not in out.coords and "x" not in out.coords)), "every coordinate riding on a source spatial dimension is dropped (same-named destination axes carry fresh labels)")
     claim(all((k in out.coords and out.coords[k] is src.coords[k]) for k in ("time", "band") if k in src.coords), "coordinates of the other dimensions are kept")
     claim(out.encoding.get("grid_mapping") == "spatial_ref" and "spatial_ref" in out.coords, "a CRS coordinate is attached and referenced")
+    claim([e[1] for e in log if e[0] == "crs-coords"] == [["spatial_ref"]], "... and it is the ONLY CRS coordinate of the result: the source's own (whatever its name) is not carried over, or it would win once the encoding is dropped")
     r = st.geobox
     claim(r is not None and And(r.shape.y == dny, r.shape.x == dnx) and bool(_same_affine(r.affine, dst.affine)), "the GeoBox recovered from the result is the requested destination grid")
     claim(r.crs == dst.crs and (same_crs or r.crs != g.crs), "... CRS included")
@@ -583,7 +585,7 @@ lemma(
     inputs=dict(
         sny=Int(ge=2), snx=Int(ge=2), srx=Real(gt=0), sry=Real(lt=0), stx=Real(), sty=Real(),
         dny=Int(ge=1), dnx=Int(ge=1), drx=Real(gt=0), dry=OneOf(Real(lt=0), Real(gt=0)), dtx=Real(), dty=Real(),
-        layout=OneOf("yx", "tyx", "yxb"), src_nodata=OneOf(None, -9999), dst_nodata=OneOf(None, 255), stale=Bool(), same_crs=Bool(),
+        layout=OneOf("yx", "tyx", "yxb"), src_nodata=OneOf(None, -9999), dst_nodata=OneOf(None, 255), stale=Bool(), same_crs=Bool(), crs_name=OneOf("spatial_ref", "crs"),
     ),
     body=_lemma_reproject_assembly,
     unstub=[f"{XR}:xr_coords", f"{MATH}:affine_from_axis", f"{MATH}:data_resolution_and_offset", f"{MATH}:is_affine_st", f"{MATH}:maybe_int"],
